@@ -176,6 +176,11 @@ def grid_bops(den, a_den=None):
 def float_bop(rng, fmt):
     b, u = float_simplex(rng, fmt, 2)
     a = rng.random()
+    z = rng.random()
+    if z < 0.15:            # small base rates (cancellation in 1-(1-a)(1-a') style rewrites)
+        a = 10.0 ** (-rng.uniform(1.3, 4)) if rng.random() < 0.9 else 0.0
+    elif z < 0.3:           # base rates near 1
+        a = 1.0 - 10.0 ** (-rng.uniform(1.3, 4)) if rng.random() < 0.9 else 1.0
     if fmt == "f32":
         a = struct.unpack(">f", struct.pack(">f", a))[0]
     return [b[0], b[1], u, a]
